@@ -11,7 +11,7 @@ use crate::classic::clvm_tools::stages::stage_0::TRunProgram;
 
 use crate::compiler::clvm::{run, truthy};
 use crate::compiler::codegen::{codegen, hoist_assign_form};
-use crate::compiler::compiler::is_at_capture;
+use crate::compiler::compiler::{do_desugar, is_at_capture};
 use crate::compiler::comptypes::{
     Binding, BindingPattern, BodyForm, CallSpec, CompileErr, CompileForm, CompilerOpts, DefunData,
     HelperForm, LambdaData, LetData, LetFormInlineHint, LetFormKind,
@@ -1669,7 +1669,10 @@ impl<'info> Evaluator {
                     &mut symbols,
                     optimizer,
                 );
-                let code = codegen(&mut context_wrapper.context, self.opts.clone(), program)?;
+                // The let forms of the program (or of the function standing
+                // in for it) have not been turned into helper functions yet.
+                let desugared = do_desugar(program)?;
+                let code = codegen(&mut context_wrapper.context, self.opts.clone(), &desugared)?;
                 Ok(Rc::new(BodyForm::Quoted(code)))
             }
             BodyForm::Lambda(ldata) => self.enrich_lambda_site_info(
